@@ -1,7 +1,9 @@
 """Generic "two overlapping operations" monitor on top of the deterministic line-level scheduler.
 
 Operation A is pre-empted at a library line boundary, operation B runs to completion in between, A finishes; the
-pair of results must equal the pair obtained when A and B run one after the other.  Every boundary of A is tried when
+pair of results must equal the pair obtained when A and B run one after the other.  For every third boundary a second
+schedule keeps BOTH operations in flight: A stops at k, B runs up to one of its own boundaries j, A finishes, B finishes
+(state that B tears down when it returns is still set up while A goes on).  Every boundary of A is tried when
 A has at most `limit` boundaries, otherwise `limit` boundaries spread over the whole of A (first / last ones always,
 the rest drawn from the case's own random generator, so a replay visits the same ones).
 
@@ -28,17 +30,25 @@ def pair(ctx, make_a, make_b, case, detail, rnd, limit=120, key=KEY, counter='ov
     ref = (res.get('A'), res.get('B'))
     ctx.count(counter)
     n = r.counts['A']
+    nb = r.counts['B']
     ctx.observe('overlap_boundaries_of_first_operation', n)
-    for k in boundaries(n, limit, rnd):
-        r = sched.Run({'A': make_a(), 'B': make_b()}, [['A', k], ['B', None], ['A', None]], lambda: None)
-        res = r.run()
-        ctx.count(counter)
-        got = (res.get('A'), res.get('B'))
-        if got != ref:
-            where = r.stopped_at.get('A')
-            ctx.violation(key, case, dict(detail, alone=list(ref), overlapping=list(got), a_preempted_at_boundary=k,
-                                          a_preempted_at=list(where) if where else None))
-            return False
+    for i, k in enumerate(boundaries(n, limit, rnd)):
+        plans = [[['A', k], ['B', None], ['A', None]]]
+        j = rnd.randint(1, nb) if nb else None           # drawn for every k, so that the sequence of draws never depends on i
+        if i % 3 == 1 and j:
+            plans.append([['A', k], ['B', j], ['A', None], ['B', None]])
+        for plan in plans:
+            r = sched.Run({'A': make_a(), 'B': make_b()}, plan, lambda: None)
+            res = r.run()
+            ctx.count(counter)
+            if len(plan) == 4:
+                ctx.count(counter + '.both_in_flight')
+            got = (res.get('A'), res.get('B'))
+            if got != ref:
+                where = r.stopped_at.get('A')
+                ctx.violation(key, case, dict(detail, alone=list(ref), overlapping=list(got), a_preempted_at_boundary=k,
+                                              a_preempted_at=list(where) if where else None, plan=plan))
+                return False
     return True
 
 
